@@ -93,3 +93,10 @@ Definition sinc_filter (ts col : list Z) (ep : iset) (kern : list Z) : list Z :=
         F stands for sosfiltfilt(sos, ., axis=0) on one column ---- *)
 Definition butter_epochs (F : list Z -> list Z) (ts col : list Z) (ep : iset) : list Z :=
   apply_epochs F ts col ep.
+
+(* a concrete integer-valued stand-in for F (reverse, then running sums: length preserving, linear, not
+   symmetric), used only by the correspondence check, which patches it in for sosfiltfilt *)
+Fixpoint running_sum (acc : Z) (l : list Z) : list Z :=
+  match l with [] => [] | x :: r => (acc + x) :: running_sum (acc + x) r end.
+Definition probe_F (w : list Z) : list Z := running_sum 0 (rev w).
+Definition butter_probe (ts col : list Z) (ep : iset) : list Z := butter_epochs probe_F ts col ep.
